@@ -45,6 +45,36 @@ CHECKS = {
             "Held on 4k (dictionary, user rows) cases x sentences x options for candidate/optimum equivalence, 1.5k load/replace/clear histories (identical observations and images), 3k invalid user CSVs (Err, no panic) per quick run, on unmapped and mapped dictionaries.",
             "Candidate order differs between the two lexicon layouts, so token sequences are compared only under a unique optimum.",
             "5/C08"),
+    "C07": ("exploration",
+            "property-based testing (proptest) with a reference-model oracle (naive feature-pair sums), bounded-exhaustive scorer lookups per generated key set, differential tokenization raw/dual/materialised matrix, and a portable<->AVX2 exchange of generated models",
+            "Held on 4k generated bigram models per quick run (K in 1..20 incl. <8, 8, 9-16, >16; ragged rows, shared strings, BOS/EOS lines, clamp regime) for EVERY id pair, 3k scorer key sets with every key of the universe looked up (3.7M lookups), and 2x300 models whose costs were recomputed in the other build.",
+            "Excluded and named: the ''/'' line (cost(0,0) over padded lanes; accessor-only finding), a feature literally named '*' in bigram.cost, duplicate cost lines. Dual is compared only where the reference proves nothing can have been clamped.",
+            "5/C07"),
+    "C09": ("fault_enumeration",
+            "fault enumeration: every strict prefix of generated dictionary images and every single-byte substitution of the magic, plus property-based generation (proptest) of cuts, near-miss headers and random streams",
+            "Per quick run: 2 generated images with EVERY strict prefix read (exhaustive for those images), 6 more images with boundary-focused prefixes, all 21x255 magic substitutions for each of the 8 images, 1.5k generated faults; ~0.9M reads, all rejected with Err.",
+            "Covers truncation and foreign/near-miss magic only, as the property states; corruption of image bodies is not asserted (crawdad's deserializer panics on some corrupted bodies).",
+            "5/C09"),
+    "C10": ("exploration",
+            "property-based testing (proptest) with structured mutation: format-aware edits of valid generated file sets; oracles: totality (no panic), acceptance => safe tokenization, and a strict reference char.def parser for silent mis-assignment",
+            "Held on 20k mutated file sets per quick run (24% accepted, 76% rejected with an error value) and 4k arbitrary mapping sequences; ~300k tokenizations of accepted dictionaries; char.def interpretation compared with the reference on 4.6k accepted dictionaries.",
+            "Open known finding excluded by construction and counted: accepted category without unk.def entries. Clause (3) is conditional on the reference parser being able to read the mutated file.",
+            "5/C10"),
+    "C11": ("exploration",
+            "property-based testing (proptest), round trip by construction: logical rows -> rendered CSV -> dictionary -> word_feature / lattice candidates",
+            "Held on 6k generated CSVs per quick run (quoted surfaces, verbatim quoted feature cells, homographs, nested prefixes, empty surfaces, ids up to 65534, i16 extremes, blank lines incl. trailing, missing final newline; system and user lexicon).",
+            "LF only; no line breaks inside quoted fields; no U+0000 in surfaces.",
+            "5/C11"),
+    "C12": ("exploration",
+            "metamorphic property-based testing (proptest): re-spaced variants of one sentence, cross-checked against the reference Viterbi with gap skipping",
+            "Held on 6k generated (dictionary, chunk list, 4 re-spacings) cases per quick run; 40% have an unknown token next to a gap, 30% a non-zero connection cost across a gap; spaces-only sentences and missing SPACE also checked.",
+            "Precondition built into the generator (SPACE exclusive to the space characters, no surface contains a space).",
+            "5/C12"),
+    "C13": ("exploration",
+            "stateful property-based testing (proptest): the reorder tool's loop over generated line histories against an independent recount in the reference lattice, then reorder->map->tokenize",
+            "Held on 5k generated histories of 0-12 lines per quick run with the id lists verified after every prefix (35k verifications), incl. empty first/inner lines, repeated lines, no lines; the final lists were always accepted by map and preserved tokenization.",
+            "Default tokenizer options as in the tool. Probabilities to 1e-12 relative.",
+            "5/C13"),
 }
 
 NOT_YET = "check not built yet in this session (work in progress; see DESIGN.md section 5)"
